@@ -580,8 +580,8 @@ GRIDS = {
 
 # which grids each property runs
 FOR_PROPERTY = {
-    "C01": ["respond", "pricing"], "C05": ["prefix"], "C13": ["prefix"], "C02": ["respond", "lifecycle", "pricing"], "C04": ["respond"], "C08": ["respond", "module"], "C14": ["deposit"], "C03": ["deposit"],
+    "C01": ["respond", "pricing"], "C05": ["prefix"], "C13": ["prefix", "genesis"], "C02": ["respond", "lifecycle", "pricing"], "C04": ["respond"], "C08": ["respond", "module"], "C14": ["deposit", "genesis"], "C03": ["deposit", "genesis"],
     "C09": ["lifecycle"], "C10": ["lifecycle"], "C11": ["lifecycle", "respond"], "C12": ["module", "respond"],
     "C16": ["lifecycle", "respond", "longrun"], "C06": ["respond", "pricing", "module"], "C18": ["respond", "query", "longrun"], "C20": ["lifecycle", "boundary", "pricing"], "C19": ["genesis"],
-    "C17": ["query", "longrun"], "C15": ["query"], "C07": ["pricing", "respond"],
+    "C17": ["query", "longrun"], "C15": ["query", "genesis"], "C07": ["pricing", "respond"],
 }
